@@ -121,6 +121,7 @@ class Recorder:
         self.lookup = {}         # handle -> (reqID, event count at lookup, kind of unslicer)
         self.in_turn = None
         self.errors = []         # harness-level inconsistencies
+        self.is_twoway = []      # per handle
 
     # -- snapshots
     def snap(self):
@@ -153,6 +154,7 @@ class Recorder:
         idx = self.begin(None)
         h = len(self.fires)
         self.fires.append([])
+        self.is_twoway.append(twoway)
         self.window, self.window_added = h, False
         try:
             d = thunk()
@@ -223,7 +225,7 @@ def recording(A):
             rec.handle[id(self)] = rec.window
             rec.keep.append(self)
             rec.watch_attempts(self.deferred, rec.window)
-            if reqID == 0:
+            if not rec.is_twoway[rec.window]:
                 self.deferred.addErrback(lambda f: None)
 
     def which(self):
@@ -403,7 +405,8 @@ def thunk_for(kind, rr, rr_typed, stalls):
     raise KeyError(kind)
 
 
-LOSS_MODES = ["lost", "lost-A-only", "shutdown-then-lost", "shutdown-other-then-data", "timeout", "lost-twice"]
+LOSS_MODES = ["lost", "lost-A-only", "shutdown-then-lost", "shutdown-other-then-data", "timeout", "lost-twice",
+              "garbage-then-lost"]
 
 
 def scenario(calls, cutA, cutB, chunkA=7, chunkB=7, loss="lost", stall_release="after", after_calls=("ok", "oneway")):
@@ -467,6 +470,14 @@ def scenario(calls, cutA, cutB, chunkA=7, chunkB=7, loss="lost", stall_release="
             B.connectionLost(done)
         elif loss == "timeout":
             A.connectionTimedOut()
+            A.connectionLost(done)
+            B.connectionLost(done)
+        elif loss == "garbage-then-lost":
+            # the peer sends a protocol violation (over-long header, witness of the repaired D2): the caller must drop
+            # the connection by itself -- no exception may escape dataReceived -- and then sees connectionLost
+            A.dataReceived(b"\x00" * 70 + b"x" * 300)
+            if not tA.closed:
+                rec.errors.append("protocol violation did not make the broker close its transport")
             A.connectionLost(done)
             B.connectionLost(done)
         elif loss == "shutdown-other-then-data":
@@ -573,7 +584,7 @@ def api_sequence(ops):
                 h = op[1]
                 # a PendingRequest that was created and then abandoned by _callRemote before commitment point 1
                 # (two-way id but never registered) is garbage in the real program: nobody can invoke it
-                reqs = [r for r in rec.keep if rec.handle[id(r)] == h and (r.broker is not None or r.reqID == 0)]
+                reqs = [r for r in rec.keep if rec.handle[id(r)] == h and (r.broker is not None or not rec.is_twoway[h])]
                 if not reqs:
                     # no PendingRequest object exists for this handle (dead / rejected call): nothing to invoke;
                     # the model treats the op as a no-op on an inactive record -- record it as such
@@ -728,7 +739,7 @@ def tub_scenario(rng, event, nsteps, log_remote=False, mix=("ok", "boom", "late"
 
 def tub_level(ctx):
     events = ["stop-a", "stop-b", "cut", "replace", "none"]
-    n = ctx.n(60, 1500)
+    n = ctx.n(80, 1000)
     for i in range(n):
         ev_ = events[i % len(events)]
         nsteps = ctx.rng.choice([0, 1, 2, 3, 5, 8, 13, 21, 40, 80, 200])
